@@ -24,7 +24,7 @@ import (
 func init() { props["C20"] = runC20 }
 
 func runC20(r *Run) {
-	r.Rule = "(field types) every column shape: atomic of each type, enum of each atomic type, optional, optional enum, sets with min/max 0..1, 0..n, 1..n, 0..3, 1..3, 2..5, enum sets, maps of every key/value pair: modelgen.FieldType / FieldTypeWithEnums vs reflect type of ovsdb.NativeType vs the Lean model; (generation) schemas with such columns, column names needing initialism and camel-case handling, table names with underscores, extended generation and enum types on and off: two runs give identical bytes, the package compiles, NewDatabaseModel(Schema(), FullDatabaseModel()) validates, and on random values Clone is equal, shares nothing, and Equal agrees with reflect.DeepEqual including single-field differences; non-trivial = every case; distinct by (column shape) / (schema, options)"
+	r.Rule = "(field types) every column shape: atomic of each type, enum of each atomic type, optional, optional enum, sets with min/max 0..1, 0..n, 1..n, 0..3, 1..3, 2..5, enum sets, maps of every key/value pair: modelgen.FieldType / FieldTypeWithEnums vs reflect type of ovsdb.NativeType vs the Lean model; (generation) schemas with such columns, column names needing initialism and camel-case handling, table names with underscores, extended generation and enum types on and off: two runs give identical bytes, the package compiles, NewDatabaseModel(Schema(), FullDatabaseModel()) validates, and on random values Clone is equal, shares nothing, and Equal agrees with reflect.DeepEqual including single-field differences; (names) FieldName, StructName, FileName and the enum alias on random RFC 7047 ids compared with the Lean model of modelgen's naming, and exportedness of every name whose first character other than '_' is a letter; (collisions) valid schemas whose names the naming scheme maps to one identifier are generated and compiled too: their failure is the known finding identifier-collision; non-trivial = every case; distinct by (column shape) / (schema, options) / (table, column)"
 	c20FieldTypes(r)
 	n := 2
 	if r.Tier == "thorough" {
@@ -37,6 +37,14 @@ func runC20(r *Run) {
 	}
 	for h := 0; h < 4*n; h++ {
 		c20Deterministic(r, h)
+	}
+	c20Names(r)
+	nc := 2
+	if r.Tier == "thorough" {
+		nc = 7
+	}
+	for k := 0; k < nc; k++ {
+		c20Collide(r, int(r.Seed)*2+k)
 	}
 }
 
@@ -125,7 +133,7 @@ func c20Columns() []c20Col {
 	var out []c20Col
 	enumOf := func(t string) interface{} {
 		// numbers large enough for %v to switch to exponent notation, negative ones, text that is not an identifier
-		vals := map[string][]interface{}{"string": {"a", "b", "x-y z", "1st"}, "integer": {1, 2, 1000000, 25000000, -3}, "real": {0.5, 1.5, 1500000.5, 2000000.0, -0.25}, "boolean": {true, false},
+		vals := map[string][]interface{}{"string": {"a", "b", "x-y z", "1st", "q\"x", "b\\c", "t`k", "nl\nx"}, "integer": {1, 2, 1000000, 25000000, -3}, "real": {0.5, 1.5, 1500000.5, 2000000.0, -0.25}, "boolean": {true, false},
 			"uuid": {[]interface{}{"uuid", uuidPool[1]}, []interface{}{"uuid", uuidPool[2]}}}[t]
 		return map[string]interface{}{"type": t, "enum": []interface{}{"set", vals}}
 	}
@@ -473,14 +481,55 @@ func refCopy(dst, src reflect.Value) {
 
 func c20Generate(r *Run, h int, enumTypes, extended bool) {
 	_, schemaJSON := c20Schema(r, h)
+	c20GenerateSchema(r, schemaJSON, enumTypes, extended)
+}
+
+// c20Collide: valid schemas whose names the generator's naming scheme cannot keep apart (see c20Collisions)
+func c20Collide(r *Run, kind int) {
+	str := map[string]interface{}{"type": "string"}
+	enum := func(vals ...interface{}) map[string]interface{} {
+		return map[string]interface{}{"type": map[string]interface{}{"key": map[string]interface{}{"type": "string", "enum": []interface{}{"set", vals}}}}
+	}
+	table := func(cols map[string]interface{}) map[string]interface{} {
+		return map[string]interface{}{"isRoot": true, "columns": cols}
+	}
+	var tables map[string]interface{}
+	switch kind % 7 {
+	case 0:
+		tables = map[string]interface{}{"T": table(map[string]interface{}{"ab": str, "AB": str})}
+	case 1:
+		tables = map[string]interface{}{"T": table(map[string]interface{}{"a_b": str, "a__b": str})}
+	case 2:
+		tables = map[string]interface{}{"A_B": table(map[string]interface{}{"x": str}), "AB": table(map[string]interface{}{"y": str})}
+	case 3:
+		tables = map[string]interface{}{"Ab": table(map[string]interface{}{"x": str}), "ab": table(map[string]interface{}{"y": str})}
+	case 4:
+		tables = map[string]interface{}{"T": table(map[string]interface{}{"c": enum("A", "a")})}
+	case 5:
+		tables = map[string]interface{}{"A": table(map[string]interface{}{"b_c": enum("x", "y")}), "AB": table(map[string]interface{}{"c": enum("x", "y")})}
+	default:
+		tables = map[string]interface{}{"T": table(map[string]interface{}{"_1": str, "x": str})}
+	}
+	r.Count(fmt.Sprintf("collision-kind:%d", kind%7))
+	c20GenerateSchema(r, map[string]interface{}{"name": "db", "version": "1.0.0", "tables": tables}, true, kind%2 == 0)
+}
+
+func c20GenerateSchema(r *Run, schemaJSON map[string]interface{}, enumTypes, extended bool) {
 	sb, _ := json.Marshal(schemaJSON)
 	cs := map[string]interface{}{"schema": string(sb), "enumTypes": enumTypes, "extended": extended}
 	r.Case("generate", fmt.Sprintf("%s|%v|%v", sb, enumTypes, extended))
-	fail := func(impl, want, why string) { r.Violation("generate", cs, impl, want, true, why, "") }
+	known := ""
+	fail := func(impl, want, why string) { r.Violation("generate", cs, impl, want, true, why, known) }
 	var schema ovsdb.DatabaseSchema
 	if err := json.Unmarshal(sb, &schema); err != nil {
 		fail(err.Error(), "", "a valid schema is rejected")
 		return
+	}
+	if coll := c20Collisions(schema); len(coll) > 0 {
+		// the naming scheme maps two names of this schema to one identifier: known finding, reported as such
+		// when (and only when) the generated code fails for it
+		known = "identifier-collision"
+		cs["collisions"] = coll
 	}
 	gen, err := modelgen.NewGenerator()
 	if err != nil {
